@@ -325,6 +325,9 @@ type c24Case struct {
 type c24Ctx struct {
 	r *mon.Run
 	w *c24World
+	// items collects, per family, every generated segment once (with the
+	// generator's verdict) for the schedule phase in c24sched.go.
+	items *[]c24Item
 }
 
 // check runs one (possibly mutated) wire segment through parse + VerifySegment
@@ -333,6 +336,9 @@ func (c *c24Ctx) check(cs c24Case, pb *cppb.PathSegment, beacon bool, v infra.Ve
 	r := c.r
 	r.Eval(1)
 	raw, wire, err := c24Wire(pb)
+	if c.items != nil && cs.Config == "uncached" {
+		*c.items = append(*c.items, c24Item{kind: cs.Kind, detail: cs.Detail, pb: pb, beacon: beacon, genuine: wantOK})
+	}
 	cs.Expect = "rejected"
 	if wantOK {
 		cs.Expect = "verifies"
@@ -452,6 +458,8 @@ func c24Positions(rng *rand.Rand, l, sample int) []int {
 }
 
 func (c *c24Ctx) family(rng *rand.Rand, base int) {
+	var items []c24Item
+	c = &c24Ctx{r: c.r, w: c.w, items: &items}
 	r, w := c.r, c.w
 	thorough := r.Thorough()
 	n := 1 + base%10 // every length 1..10 is visited
@@ -682,6 +690,10 @@ func (c *c24Ctx) family(rng *rand.Rand, base int) {
 
 	// 6. certificate validity vs. hop lifetime
 	c.validity(rng, base, spec, mk)
+
+	// 7. the same segments through the entry points the consumers use, under
+	// delays, cancellations and deadline expiries (c24sched.go)
+	c.schedPhase(base, items)
 }
 
 // validity builds segments in which one entry is signed with a key whose
@@ -827,13 +839,24 @@ func checkC24(r *mon.Run) {
 		"reorder/remove/insert/replace entries, swapped signatures or bodies, foreign info, truncated tails; re-signed variants: " +
 		"foreign or uncertified signer, key id naming another AS, certificates not covering the hop lifetime incl. exact 1 s / 0.5 s " +
 		"boundaries and two certificates whose union only covers. Structural mutations rejected by the parser are additionally fed " +
-		"to VerifySegment without structural validation. class = mutation kind x verifier configuration x where it was detected"
+		"to VerifySegment without structural validation. class = mutation kind x verifier configuration x where it was detected. " +
+		"Schedule phase (per family, PRNG-drawn): batches of 1-5 of the same genuine and altered segments go through " +
+		"segverifier.StartVerification (UnitResult.SegError/Errors/Unit, one result per unit counted), seghandler.Handler.Handle " +
+		"(Stats().VerifiedSegs, Storage.StoreSegs) and VerifySegment in goroutines, with a wrapper around the real verifier that per " +
+		"unit and entry passes, yields, sleeps, returns ctx.Err(), ignores the context, blocks until the context is done, or cancels " +
+		"the context from inside the call, under 8 schedules: no-fault, delay, cancel-before, expired-before, cancel-mid, " +
+		"block-cancel (cancelled once every unit is blocked or finished), deadline-block and deadline-late (real 1-4 ms deadlines); " +
+		"class = entry point / altered|genuine / schedule [/in-flight: that unit's worker was busy when the context became done]"
 	r.Assumptions = []string{
 		"oracle: verifies <=> untouched or truncated tail (or a re-signed positive control); everything else must be rejected by parser or VerifySegment",
 		"all certificates and TRCs are valid at the wall-clock time of the run with margins of >= 2 h (run time is capped below that by the watchdog), so no verdict depends on time.Now()",
 		"nothing is asserted about alterations of the last entry's own signature (ECDSA malleability); they are recorded as events",
 		"the remote trust fetcher is a stub that has no additional material",
 		"hash collisions / signature forgeries are not expected",
+		"schedule phase: an altered segment must never be presented as verified whatever the schedule (so no verdict depends on timing); " +
+			"a genuine segment is only required to verify under the no-fault schedule, under delay/cancellation/expiry its outcome is recorded; " +
+			"a result missing after the 60 s watchdog, a surplus or an unattributable result is inconclusive",
+		"the fault-injecting wrapper returns success only if the real verifier returned success for that very call",
 	}
 	if err := beaconref.SelfTest(); err != nil {
 		fmt.Fprintln(os.Stderr, "reference self-test failed:", err)
@@ -861,8 +884,13 @@ func checkC24(r *mon.Run) {
 	}
 	wg.Wait()
 	r.Extra("remote_fetch_attempts", w.fetches.Load())
-	r.Require(int64(bases*50), 60, "accept", "reject_verify", "reject_parse", "reject_verify_lenient",
-		"malleated_signature_valid_on_its_own")
+	r.Require(int64(bases*80), 120, "accept", "reject_verify", "reject_parse", "reject_verify_lenient",
+		"malleated_signature_valid_on_its_own",
+		"sched_altered_rejected", "sched_altered_in_flight_when_context_done_rejected", "sched_genuine_verified",
+		"sched_cancelled_from_inside_a_verification_call", "sched_segverifier_results")
+	r.Extra("sched_segverifier_units_started", r.Events("sched_segverifier_units_started"))
+	r.Extra("sched_segverifier_results", r.Events("sched_segverifier_results"))
+	r.RequireClasses(c24SchedRequire()...)
 	r.RequireClasses(
 		"untouched/uncached/verifies", "untouched/cached/verifies",
 		"truncate-tail/uncached/verifies", "truncate-tail/cached/verifies",
